@@ -21,7 +21,7 @@
  *   E gE|gB|gR <cid>                                              m_CheckRunning: set / found busy / reset
  *   E xs|xe <cid>           | <now_us>                            command function started / about to deliver
  *   E ob|oe <cid> <kind> [<value_us>]                             harness operation begins / has returned
- *                              kinds: pause resume activate deactivate setnext
+ *                              kinds: pause resume activate deactivate setnext notify (OnPausedChanged fired without a change)
  *   E force <cid>                                                 SetForceNextCheck(true) (under the checker's mutex)
  *   W <cid>                 | <now_before_us> <now_after_us> <next_us> <interval_us>
  *   Q <cid>                 | <schedulable> <inIdle> <inPending> <key_us> <next_us>  at quiescence
@@ -127,8 +127,8 @@ static void GenArith(Rng& rng, int count)
 
 enum Kind : uint8_t { kPick, kSkip, kFin, kObj, kNc, kDec, kGE, kGB, kGR, kXs, kXe, kOb, kOe, kForce, kWin };
 static const char *l_KindName[] = { "pick", "skip", "fin", "obj", "nc", "dec", "gE", "gB", "gR", "xs", "xe", "ob", "oe", "force", "W" };
-enum OpKind : uint8_t { oPause, oResume, oActivate, oDeactivate, oSetNext };
-static const char *l_OpName[] = { "pause", "resume", "activate", "deactivate", "setnext" };
+enum OpKind : uint8_t { oPause, oResume, oActivate, oDeactivate, oSetNext, oNotify };
+static const char *l_OpName[] = { "pause", "resume", "activate", "deactivate", "setnext", "notify" };
 
 struct Rec {
 	uint8_t kind;
@@ -326,6 +326,14 @@ static void OpDeactivate(int cid)
 	ci.paused = true;
 	LogOp(kOe, cid, oDeactivate);
 }
+/* the handler may be called at any time (two racing authority changes end like this): fire OnPausedChanged as is */
+static void OpNotify(int cid)
+{
+	CInfo& ci = *l_C[cid];
+	LogOp(kOb, cid, oNotify);
+	static_pointer_cast<ConfigObject>(ci.obj)->NotifyPaused(Empty);
+	LogOp(kOe, cid, oNotify);
+}
 static void OpSetNext(int cid, double v)
 {
 	CInfo& ci = *l_C[cid];
@@ -388,6 +396,7 @@ static void Mutator(int idx, int initial)
 				else if (k < 80) { OpForce(cid); if (rng.below(4) != 0) OpSetNext(cid, now); }
 				else if (k < 83 && cid >= initial / 2 && rng.below(1 + 400 / n) == 0) OpDeactivate(cid);
 				else if (k < 90) { OpSetNext(cid, now); OpSetNext(cid, now + 0.01); }
+				else if (k < 96) OpNotify(cid);
 				else { if (ci.paused) OpResume(cid); }
 			}
 		}
@@ -559,16 +568,20 @@ static int RunScenario(const std::vector<std::string>& w)
 	for (auto& t : threads)
 		t.join();
 
-	/* settle, then look how overdue the idle entries are (liveness, measured) */
+	/* settle, then look how overdue the idle entries are (liveness, measured): everything that was due when the
+	 * operations stopped must have been taken `bound` later (the scheduler sleeps up to 0.5 s when all slots are taken
+	 * and the finishing helper's checkable is no longer pending, checkercomponent.cpp:121-129,263-270) */
 	l_DelayPermille = 0;
-	std::this_thread::sleep_for(std::chrono::milliseconds(300));
+	double tStop = Utility::GetTime();
+	int boundMs = atoi(kv["bound_ms"].c_str());
+	std::this_thread::sleep_for(std::chrono::milliseconds(boundMs + 300));
 	long long overdueMax = 0;
 	{
 		std::unique_lock<std::mutex> lock(l_Checker.get()->*get(C04MtxTag()));
 		auto& idle = l_Checker.get()->*get(C04IdleTag());
 		double now = Utility::GetTime();
 		for (const auto& csi : idle)
-			overdueMax = std::max(overdueMax, Us(now - csi.NextCheck));
+			overdueMax = std::max(overdueMax, Us(now - std::max(csi.NextCheck, tStop)));
 	}
 
 	/* stop the scheduler, let the dispatched helpers finish, then the quiescent snapshot */
@@ -696,7 +709,7 @@ int main(int argc, char **argv)
 		fflush(stdout);
 
 		std::vector<Job> jobs;
-		int count = thorough ? 24 : 10;
+		int count = thorough ? 24 : 15;
 		static const int maxes[] = { 1, 2, 16, 1, 2, 16, 4, 1 };
 		for (int i = 0; i < count; i++) {
 			int maxc = maxes[(i + seed) % 8];
@@ -715,7 +728,7 @@ int main(int argc, char **argv)
 			int mut = 1 + (int)rng.below(4);
 			char buf[256];
 			snprintf(buf, sizeof(buf), "C %d sched seed=%llu n=%d pool=%d max=%d dur_ms=%d mut=%d bound_ms=%d", caseNo++,
-				(unsigned long long)(rng.next() >> 16), n, pool, maxc, dur, mut, thorough ? 10000 : 3000);
+				(unsigned long long)(rng.next() >> 16), n, pool, maxc, dur, mut, thorough ? 2500 : 1200);
 			Job j;
 			j.line = buf;
 			jobs.push_back(j);
